@@ -50,6 +50,7 @@ pub struct Weights {
     pub getttl: u32,
     pub gethold: u32,
     pub getwide: u32,
+    pub bulkwide: u32,
     pub umc: u32,
     pub clear: u32,
     pub wait: u32,
@@ -72,6 +73,7 @@ impl Default for Weights {
             getttl: 3,
             gethold: 1,
             getwide: 0,
+            bulkwide: 0,
             umc: 2,
             clear: 2,
             wait: 2,
@@ -386,6 +388,11 @@ pub fn op_strategy(p: &Profile, cfg: &Config) -> BoxedStrategy<Op> {
             (0..nk, proptest::sample::select(vec![0i64, 1, 1_000_000, 500_000_000, NS - 1, NS, NS + 1, 2 * NS, 10 * NS])).prop_map(|(k, dt)| Op::GetHold { k, dt }).boxed(),
         ),
         (w.getwide, (proptest::sample::select(vec![8u16, 40, 150, 600]), 0u16..4).prop_map(|(n, base)| Op::GetWide { n, base }).boxed()),
+        // (hundreds of entries falling due together only make sense where they are all admitted)
+        (
+            if cfg.max_cost > (1 << 30) { w.bulkwide } else { 0 },
+            (proptest::sample::select(vec![40u16, 270, 300]), proptest::sample::select(vec![1_000_000i64, 500_000_000, NS, 2 * NS])).prop_map(|(n, ttl)| Op::BulkWide { n, ttl }).boxed(),
+        ),
         (w.umc, umc_vals.prop_map(|m| Op::UpdateMaxCost { m }).boxed()),
         (w.clear, (0usize..4).prop_map(|pre| Op::Clear { pre }).boxed()),
         (w.wait, Just(Op::Wait).boxed()),
